@@ -34,6 +34,10 @@ class FakeWriter:
         w = self.sess.world
         if self.drain_mode > 1:
             # 9: park unconditionally (a scenario's set-up puts a reader into the middle of its command)
+            if self.drain_mode == 7:
+                # a peer that reads slowly but steadily: every drain takes a little less than push()'s 2 s write timeout
+                await asyncio.sleep(getattr(self, "slow_s", 1.8))
+                return None
             if self.drain_mode == 9 and self.park_skip > 0:
                 self.park_skip -= 1
                 return None
